@@ -32,15 +32,17 @@ type c22Op struct {
 }
 
 type c22Case struct {
-	Ops []c22Op `json:"ops"`
+	Async bool    `json:"async,omitempty"` // ExportOptions.Async at construction
+	Ops   []c22Op `json:"ops"`
 }
 
 func genC22(t *rapid.T) c22Case {
 	var c c22Case
+	c.Async = rapid.Bool().Draw(t, "async")
 	c.Ops = append(c.Ops, c22Op{Kind: "create", File: 0})
 	n := rapid.IntRange(2, 25).Draw(t, "n")
 	for i := 0; i < n; i++ {
-		op := c22Op{Kind: pick(t, "kind", "write", "write", "write", "write", "commit", "setsize", "read", "create"), File: rapid.IntRange(0, 1).Draw(t, "file"),
+		op := c22Op{Kind: pick(t, "kind", "write", "write", "write", "write", "write", "write", "write", "write", "commit", "commit", "setsize", "setsize", "read", "read", "create", "create", "toggleasync"), File: rapid.IntRange(0, 1).Draw(t, "file"),
 			Off: pick(t, "off", 0, 1, 100, 4095, 4096, 4097, 9000, rapid.IntRange(0, 12000).Draw(t, "roff")), Len: pick(t, "len", 0, 1, 7, 100, 4096, 5000), Fill: rapid.Byte().Draw(t, "fill"),
 			Stable: pick(t, "stable", uint32(nfsx.Unstable), nfsx.DataSync, nfsx.FileSync, nfsx.FileSync)}
 		c.Ops = append(c.Ops, op)
@@ -54,7 +56,7 @@ func runC22(tb stat.TB, c c22Case) {
 	const id, check = "C22", "TestC22"
 	v := vfs.New()
 	v.CrashMode = true
-	s := newSession(tb, v, absnfs.ExportOptions{AttrCacheTimeout: 1, AttrCacheSize: 2})
+	s := newSession(tb, v, absnfs.ExportOptions{AttrCacheTimeout: 1, AttrCacheSize: 2, Async: c.Async})
 	defer s.close()
 	other, err := absnfs.NewServer(absnfs.ServerOptions{})
 	if err != nil {
@@ -192,6 +194,12 @@ func runC22(tb stat.TB, c c22Case) {
 					promised[op.File].truncate(int64(op.Off))
 					pending[op.File].truncate(int64(op.Off))
 				}
+			case "toggleasync":
+				o := s.e.NFS.GetExportOptions()
+				o.Async = !o.Async
+				if err := s.e.NFS.UpdateExportOptions(o); err != nil {
+					tb.Fatalf("harness: UpdateExportOptions(Async=%v): %v", o.Async, err)
+				}
 			case "read":
 				if fhs[op.File] == nil {
 					continue
@@ -221,7 +229,7 @@ func runC22(tb stat.TB, c c22Case) {
 	}
 	stat.Label("crash_points", int64(crashPoints))
 	stat.Label("crash_points_after_stable_write", int64(ntPoints))
-	stat.Case(c, ntPoints > 0)
+	stat.Case(c, ntPoints > 0, fmt.Sprintf("async_%v", c.Async))
 }
 
 var propC22 = defProp("C22", "TestC22", genC22, runC22)
